@@ -60,6 +60,16 @@ def check(ctx):
     _c16.r16_1(ctx, _pf, _loop, _ti(_pf, _loop, "R16.1"))  # optional fields survive: the parser accepts the tag grammar (shared with C16)
     _c16.r16_2(ctx, _pf, _loop)
     ctx.not_decided.append("that the index itself lists the right offsets (C03) and that seek/readline return that record (pysam / text I/O contract)")
+    # mechanisms this property rests on (see shared.py): a change there is reported here as well
+    from . import shared as _sh
+
+    _sh.gaf_reader(ctx)
+    _sh.tag_parser(ctx)
+    _sh.graph_loader(ctx)
+    _sh.contig_paths(ctx)
+    _sh.index_build(ctx)
+    _sh.cli_layer(ctx, "gaftools.cli.view")
+    _sh.cli_layer(ctx, "gaftools.cli.index")
 
 
 RANK = {"sorted": 0, "set": 1, "uniq-list": 2, "sorted-dups": 3, "list": 4}
